@@ -8,7 +8,7 @@
   (kernel `Lin.runEvs_rename` shared with C07's `C07_rename_assembled`).
 -/
 import Gama.Props.C14
-import Gama.Lemmas.RevisePhysical
+import Gama.Lemmas.RevisePhysicalFull
 namespace Gama.Props.C14
 open Gama Gama.Lin
 
@@ -29,45 +29,65 @@ theorem C14_pe_pass_relabelled [TrigScalar K] (σ σ' : Lin.Net K) (fuel : Nat) 
       | .ok r => .ok ⟨r.rows, r.rhs, r.idx.mapKeys (RevPE.relab g gc)⟩ :=
   RevPE.passFrom_relabel σ σ' fuel g gc hg hgc obs hv s
 
-/-- **Results equal those for the input with the excluded items PHYSICALLY deleted — one inner call, every
-    algorithm.**  `RevPE.physDel net`: the points without an active coordinate group and the clusters without
-    observations are removed from the lists (what is left after `RevPE.delObs` of round 8), the remaining
-    observations and stand-points name the points by their new positions (`RevPE.gPt net`, `RevPE.gCl net`:
-    rank among the kept entries — order preserving, injective).  If `assemble net` succeeds then
-    `assemble (physDel net)` succeeds with the same `m`, `n`, sparse rows, `rhs_`, cofactor blocks, so that
-    **for every algorithm and every regularisation list `netSolve` returns the same exception or the same
-    answer field by field**, and the index table is the relabelled one on every unknown the prologue clears
-    (`b` = the pass of `net` from the cleared state: column `j` of both systems is the unknown `u` of `net`
-    and the unknown `relab u` of the deleted network).
-    Hypothesis `RolesKept net`: the three point slots of every revised observation name kept points (the
-    `PE` record fills the slot of an absent role with a position; the linearisation reads the record of
-    that position although no class uses it — `Lin.Net.view`), and its cluster is in the list (true of every
-    network; carried).
-
-    `_partial` — exactly what is missing for `projectEquations (physDel net)` vs `projectEquations net`:
-    (1) `PE.revise (physDel net) = physDel net` for a stable `net` (`MinX.isRevised` under the renaming);
-    (2) `singular_coords`, `min_x_` (`MinX.singularFrom`, `fillFrom` walk `PD` by position: the relabelled
-        numbering on the shorter list gives the same verdict / the same list) and the table `unknowns_`
-        (`oriLoop`, `ptLoop`) relabelled;
-    (3) `RolesKept` as a consequence of the revision for the slots a class uses, and independence of the
-        generated member functions from the slots it does not use.
-    With (1)–(3) `pe_final` + this theorem give the whole call as in round 8.
-    SECOND LIMITATION (not a gap of the proof — the statement would be false as "one inner call"): a point
-    `singular_coords` removed that is LEFT in the file with its status (free, no observation) is removed
-    again (`index = 0`), which costs a second inner call; the answers are still equal — example `corFree`. -/
-theorem C14_pe_solution_equals_physical_deletion_partial [TrigScalar K] (net : PE.Net K)
-    (hR : RevPE.RolesKept net) (a : PE.Asm K) (h : PE.assemble net = .ok a) :
+/-- **One inner call on the physically deleted network, every algorithm** (round 12, hypothesis `RolesKept`
+    REMOVED in round 13).  `RevPE.physDel net`: the points without an active coordinate group and the clusters
+    without observations are removed from the lists, the remaining observations and stand-points name the
+    points by their new positions (`RevPE.gPt net`, `RevPE.gCl net`: rank among the kept entries — order
+    preserving, injective).  For every network on which the revision is stable (`PE.revise net = net`: every
+    network `project_equations()` leaves): if `assemble net` succeeds then `assemble (physDel net)` succeeds with
+    the same `m`, `n`, sparse rows, `rhs_`, cofactor blocks, so that for every algorithm and every regularisation
+    list `netSolve` returns the same exception or the same answer field by field, and the index table is the
+    relabelled one on every unknown the prologue clears.
+    Why no hypothesis on the role slots: the generated member functions do not read the slots their class does
+    not use (`RevPE.lin_pfs`, `lin_pto`: `rfl` per class on the regenerated `Gen.Lin.*`), the slots a class
+    uses name kept points because the revision asked for their groups (`RevPE.slots_kept`), and the cluster of a
+    revised observation has an observation. -/
+theorem C14_pe_inner_call_equals_physical_deletion [TrigScalar K] (net : PE.Net K)
+    (hst : PE.revise net = net) (a : PE.Asm K) (h : PE.assemble net = .ok a) :
     ∃ a' b, PE.assemble (RevPE.physDel net) = .ok a' ∧ PE.Fresh net a b ∧
       (∀ (alg : Ls.Alg) (mx : List Nat),
         Ls.Net.netSolve alg { a'.np with minx := mx } = Ls.Net.netSolve alg { a.np with minx := mx }) ∧
       a'.np.m = a.np.m ∧ a'.np.n = a.np.n ∧ a'.np.rows = a.np.rows ∧ a'.np.rhs = a.np.rhs ∧
       (∀ u, PE.Cleared (RevPE.physDel net) (RevPE.relab (RevPE.gPt net) (RevPE.gCl net) u) →
         a'.idx.get (RevPE.relab (RevPE.gPt net) (RevPE.gCl net) u) = b.idx.get u) := by
-  obtain ⟨a', b, h1, F, hm, hn, hr, hb, hc, _, hag⟩ := RevPE.assemble_physDel net hR a h
+  obtain ⟨a', b, h1, F, hm, hn, hr, hb, hc, _, hag⟩ := RevPE.assemble_physDel' net hst a h
   refine ⟨a', b, h1, F, fun alg mx => ?_, hm, hn, hr, hb, fun u hu => ?_⟩
   · exact RevPE.netSolve_congr alg _ _ hm hn hr hb hc rfl
   · rw [← hag.2 _ hu]
     exact IdxState.get_mapKeys _ (RevPE.relab_injective _ _ (RevPE.gmap_injective _) (RevPE.gmap_injective _)) b.idx u
+
+/-- **Results equal those for the input with the excluded items PHYSICALLY deleted — the whole call, every
+    algorithm.**  `net`: a network on which the call of `project_equations()` is one inner call — the revision
+    is stable, `assemble`/`prepare` succeed, `singular_coords` finds nothing (this is what round 8's
+    `C14_pe_solution_equals_deletion_partial` establishes for the position-stable deleted input
+    `delObs u.net`).  Then (first conjunct) `projectEquations net` is that inner call, and
+    `projectEquations (physDel net)` succeeds in one inner call, removes nothing, leaves the points and
+    clusters of `physDel net`, hands the solvers the same `m, n`, rows, `rhs_`, cofactor blocks and THE SAME
+    `min_x_` list (the walks of `singular_coords`, `min_n_`, `min_x_` over the shorter `PD` with the relabelled
+    numbering give the same verdict / count / list: `RevPE.singularFrom_physDel`, `countFrom_physDel`,
+    `fillFrom_physDel`), hence **for every algorithm the same exception or the same answer field by field**.
+
+    `_partial` — exactly what is still missing:
+    (1) hypothesis `hrev'`: `PE.revise (physDel net) = physDel net` (`MinX.isRevised` under the renaming: the
+        needs test is `getElem?_filter_gmap`; the stand-point rule needs `(dirTargets …).eraseDups` under an
+        injective map of the targets) — NOT proved, carried;
+    (2') the table `unknowns_` (`u'.list`) is not compared: it is `u.list` with the stand-point cluster numbers
+        relabelled (`oriLoop`/`ptLoop` under the relabelling not proved); `pocet_neznamych_` is (`u'.n`).
+    A removed point LEFT in the file as free: example `corFree` (second inner call, same answers). -/
+theorem C14_pe_solution_equals_physical_deletion_partial [TrigScalar K] (net : PE.Net K)
+    (hst : PE.revise net = net) (hrev' : PE.revise (RevPE.physDel net) = RevPE.physDel net)
+    (a : PE.Asm K) (ha : PE.assemble net = .ok a) (hh : Ls.Net.Hom K) (hprep : Ls.Net.prepare a.np = .ok hh)
+    (hsc : (SingularCoords.singularCoords hh.Ad (PE.idxFn a.idx) (PE.ptsOf net)).1 = false) :
+    PE.projectEquations net =
+      .ok ({ a.np with minx := (MinX.feed (PE.idxFn a.idx) (PE.ptsOf net)).2 }, ⟨a.np.n, a.list, { net with idx := a.idx }, []⟩) ∧
+    ∃ np' u', PE.projectEquations (RevPE.physDel net) = .ok (np', u') ∧
+      np'.m = a.np.m ∧ np'.n = a.np.n ∧ np'.rows = a.np.rows ∧ np'.rhs = a.np.rhs ∧
+      np'.minx = (MinX.feed (PE.idxFn a.idx) (PE.ptsOf net)).2 ∧ Ls.Net.cofs np' = Ls.Net.cofs a.np ∧
+      u'.n = a.np.n ∧ u'.removed = [] ∧ u'.net.points = (RevPE.physDel net).points ∧
+      u'.net.clusters = (RevPE.physDel net).clusters ∧
+      ∀ alg : Ls.Alg, Ls.Net.netSolve alg np' =
+        Ls.Net.netSolve alg { a.np with minx := (MinX.feed (PE.idxFn a.idx) (PE.ptsOf net)).2 } :=
+  RevPE.pe_physDel net hst hrev' a ha hh hprep hsc
 
 /-! ### non-vacuity -/
 
@@ -99,7 +119,17 @@ attribute [local instance] PE.Ex.trigQ in
 example : answerOf .chol (PE.projectEquations (RevPE.physDel phNet)) = answerOf .chol (PE.projectEquations phNet) := by
   decide +kernel
 
-/-- `RolesKept phNet`: the slots of the three revised observations are positions 0, 2, 3 -/
+/-- the revision is stable on `phNet` and on its physical deletion (hypotheses `hst`, `hrev'`) -/
+example : PE.revise phNet = phNet ∧ PE.revise (RevPE.physDel phNet) = RevPE.physDel phNet := by
+  constructor <;> rfl
+attribute [local instance] PE.Ex.trigQ in
+/-- … and the call on `phNet` is one inner call: nothing removed, flags unchanged -/
+example : (match PE.projectEquations phNet with
+      | .ok (_, u) => some (u.removed, u.net.clusters.map (fun c => c.obs.map (·.active)))
+      | .error _ => none) = some ([], [[], [true, true, true]]) := by decide +kernel
+
+/-- `RolesKept phNet` (round 12's hypothesis, no longer needed): the slots of the three revised observations
+    are positions 0, 2, 3 -/
 example : RevPE.RolesKept phNet := by
   intro ob hob
   have hl : PE.revisedObs phNet = [⟨.h_diff, 1, 0, 2, 0, 1001/100⟩, ⟨.h_diff, 1, 2, 3, 0, -499/100⟩,
